@@ -142,7 +142,7 @@ func (p *Parser) Parse() (al align.Alignment, err error) {
 			currentnbseqs = 0
 		}
 
-		if tok != IDENTIFIER && tok != NUMERIC {
+		if tok != IDENTIFIER && tok != NUMERIC && tok != CLUSTAL {
 			err = errors.New("we expect a sequence identifier here")
 			return
 		}
